@@ -27,5 +27,7 @@ func main() {
 		gen(seed, tier)
 	case "impl":
 		impl()
+	case "fresh1": // fresh1 <srcdef> <dstdef> <xhex> <yhex>: one call of one transformer in a process that has done nothing else
+		fresh1(os.Args[2:])
 	}
 }
